@@ -8,10 +8,38 @@ from .scenes import scene, prms_variant
 from .util import digest_chunk, run_quiet
 
 
+def split_deck_below_high_second_hits(k, seed):
+    """one instrument sees a thin low layer and, in its first measurements, second / third hits far above MSA + buffer (rows that the
+    cropping removes, early in the table); another sees a deck alternating between two levels (one group, split by the mixture
+    model).  Rows are not time-sorted (legal input)."""
+    from .scenes import _df
+    rng = random.Random(seed * 61 + k)
+    rows = []
+    n_a = rng.choice([15, 20, 30])
+    sep = rng.choice([500., 600., 900.])
+    for i in range(3 * n_a):
+        dt = -1200. + 10 * i
+        rows.append(('A', dt, 300. + (i % 3), 1))
+        if i < n_a:
+            rows.append(('A', dt, 20000. + 10 * i, 2))
+            if rng.random() < 0.3:
+                rows.append(('A', dt, 26000. + 10 * i, 3))
+    for i in range(80):
+        h = 3000. + 7 * (i % 5) if (i // 4) % 2 == 0 else 3000. + sep + 9 * (i % 4)
+        rows.append(('B', -1195. + 15 * i, h, 1))
+    if rng.random() < 0.5:
+        rng.shuffle(rows)
+    return _df(rows), {'k': k, 'seed': seed, 'layout': 'split_deck_below_high_second_hits', 'ceilos': ['A', 'B'], 'rows': len(rows)}
+
+
 def check(k, seed):
     rng = random.Random(seed * 13 + k)
-    df, desc = scene(k, seed)
-    prms = prms_variant(k, seed)
+    if k % 6 == 4:
+        df, desc = split_deck_below_high_second_hits(k, seed)
+        prms = {'MSA': 10000, 'MSA_HIT_BUFFER': rng.choice([0, 1500])}
+    else:
+        df, desc = scene(k, seed)
+        prms = prms_variant(k, seed)
     hs = df['height'].dropna()
     if prms.get('MSA') is None:
         prms['MSA'] = float(np.percentile(hs, rng.choice([20, 50, 80]))) if len(hs) else 1000.0
